@@ -476,8 +476,9 @@ Proof.
   rewrite sin_table_old_2_70_none. unfold rat_fn.
   assert (Hq : qeq ((2 ^ 70 # 1) * pi_model) 0 = false).
   { rewrite pi_model_value. vm_compute. reflexivity. }
-  rewrite Hq.
-  destruct (bridge (Fo Fsin) ((2 ^ 70 # 1) * pi_model)); cbn [bind]; intro H; try discriminate.
+  rewrite Hq. clear Hq.
+  set (br := bridge (Fo Fsin) ((2 ^ 70 # 1) * pi_model)). clearbody br.
+  destruct br; intro H; try discriminate.
   injection H as <-. reflexivity.
 Qed.
 
